@@ -95,8 +95,11 @@ type MapScen struct {
 	FillFirst bool  // chain fillers are inserted before the alphabet keys (keys end up in the overflow bucket)
 	Chain     int   // grow-armed / full-chain tables: number of full buckets in the target chain (0 = 1)
 	Table     TableCond
-	Threads   [][]MIn
-	NoBlock   []bool
+	// Cycled: before the scenario's own prologue the map grows and shrinks back to its minimum length
+	// (the scenario starts from a non-initial state: used table, used counter stripes, a resize history)
+	Cycled  bool
+	Threads [][]MIn
+	NoBlock []bool
 	MaxSteps  []int
 	Bound     int // preemption bound (0 = unbounded)
 	Classes   int
@@ -117,6 +120,9 @@ func (ms *MapScen) name() string {
 	}
 	if ms.FillFirst {
 		sb.WriteString("/overflow")
+	}
+	if ms.Cycled {
+		sb.WriteString("/after-grow-and-shrink")
 	}
 	for t, ops := range ms.Threads {
 		fmt.Fprintf(&sb, " T%d:", t)
@@ -198,6 +204,31 @@ func (ms *MapScen) setupRaw(out *MapLike) MState {
 		}
 	}
 	growThreshold := int(float64(32*slots) * 0.75)
+	baseG, baseS := int64(0), int64(0)
+	if ms.Cycled {
+		for j := 0; j < slots; j++ {
+			m.Store(fillTarget+60+j, 1)
+		}
+		n := 0
+		for j := 0; m.Size() <= growThreshold; j++ {
+			m.Store(fillSpread+600+j, 1)
+			n++
+		}
+		m.Store(fillTarget+60+slots, 1) // full chain + above threshold: grows
+		countCheck(m, "after a grow")
+		for j := 0; j <= slots; j++ {
+			m.Delete(fillTarget + 60 + j)
+		}
+		for j := 0; j < n; j++ {
+			m.Delete(fillSpread + 600 + j)
+		}
+		countCheck(m, "after a grow and a shrink back to the minimum length")
+		s := m.Stats()
+		if s.TotalGrowths < 1 || s.TotalShrinks < 1 || s.RootBuckets != 32 || s.Size != 0 {
+			panic(fmt.Sprintf("prologue: grow/shrink cycle did not return to an empty minimum table: %+v", s))
+		}
+		baseG, baseS = s.TotalGrowths, s.TotalShrinks
+	}
 	switch ms.Table {
 	case TPlain:
 		putKeys()
@@ -255,7 +286,7 @@ func (ms *MapScen) setupRaw(out *MapLike) MState {
 			m.Store(fillSpread+j, 2000+j)
 			total++
 		}
-		if g := m.Stats().TotalGrowths; g != 0 {
+		if g := m.Stats().TotalGrowths; g != baseG {
 			panic("prologue grew the table")
 		}
 	case TShrinkArmed:
@@ -270,7 +301,7 @@ func (ms *MapScen) setupRaw(out *MapLike) MState {
 		}
 		m.Store(fillTarget+slots, 1999) // full chain + above threshold: grows
 		countCheck(m, "after the first grow")
-		if g := m.Stats().TotalGrowths; g != 1 {
+		if g := m.Stats().TotalGrowths; g != baseG+1 {
 			panic(fmt.Sprintf("prologue: expected exactly one growth, got %d", g))
 		}
 		putKeys()
@@ -297,7 +328,7 @@ func (ms *MapScen) setupRaw(out *MapLike) MState {
 			m.Delete(fillSpread + j)
 		}
 		countCheck(m, "after deleting down to the shrink threshold")
-		if s := m.Stats(); s.TotalShrinks != 0 || s.RootBuckets != 64 {
+		if s := m.Stats(); s.TotalShrinks != baseS || s.RootBuckets != 64 {
 			panic(fmt.Sprintf("prologue: shrink-armed table not as intended: %+v", s))
 		}
 	}
